@@ -169,4 +169,9 @@ impl VerifPool {
     pub fn trigger_refill(&self) {
         self.pool.trigger_immediate_refill()
     }
+
+    /// `NodeConnectionPool::trigger_immediate_keepalive` (the pool-level STATUS_CHANGE DOWN hint).
+    pub fn trigger_immediate_keepalive(&self) {
+        self.pool.trigger_immediate_keepalive()
+    }
 }
